@@ -1,6 +1,6 @@
 """C10 — saving and loading an attack graph preserves it."""
 from __future__ import annotations
-import json, random
+import copy, json, random
 from ..common import Result, Violation, run_driver, canon_hash
 from ..aghist import Gen, Impl, canon_obs, canon_out, consistent, rejected_clean
 
@@ -26,9 +26,11 @@ def preserved(g, with_asset):
             'parent_edges': sorted({(p.id, n.id) for n in g.nodes for p in n.parents}),
             'attackers': sorted([a.id, a.name, sorted({n.id for n in a.entry_points}), sorted({n.id for n in a.reached_attack_steps})] for a in g.attackers)}
 
-def run_one(ops, mo_steps, res):
+def run_one(ops, mo_steps, res, tap=None):
+    """`tap(phase, i, op, im, st)` (third column, `GenDocs`): called before / after every step and at the end"""
     im = Impl()
     for i, op in enumerate(ops):
+        if tap: tap('before', i, op, im, None)
         before = preserved(im.g, op.get('withModel', False)) if op['k'] == 'save_load' else None
         try:
             st = im.step(op)
@@ -37,6 +39,7 @@ def run_one(ops, mo_steps, res):
                 return ('oracle', i, [f'save / load of the graph raises {type(e).__name__}: {str(e)[:80]}'])
             raise
         res.bump(op['k'])
+        if tap: tap('after', i, op, im, st)
         if 'case' in op: res.bump(op['case'] + (' -> ' + st['err'] if st['err'] else ' -> accepted'))
         if rejected_clean(st): return ('oracle', i, rejected_clean(st) + consistent(im.g))
         if op['k'] == 'save_load':
@@ -57,7 +60,94 @@ def run_one(ops, mo_steps, res):
                 pass
             if a != b:
                 return ('diverge', i, {'impl': a, 'model': b})
+    if tap: tap('end', len(ops), None, im, None)
     return None
+
+# ---- third column (genexec2): the DOCUMENT of the generated `_to_dict`, and the generated `_from_dict` on the real file ----
+def doc_positions(ops):
+    """where the documents are compared: the document every `save_load` writes (= the graph before that step) and the
+    graph at the end of the history"""
+    return [i for i, o in enumerate(ops) if o['k'] == 'save_load'] + [len(ops)]
+
+_last_loaded: dict = {}
+def _tap_loaders():
+    """remember the dictionary the real file layer hands to `_from_dict` (PyYAML parses slowly: reading every file a second
+    time would cost 40 % of the run).  The wrappers only record what the original functions return."""
+    import sys
+    _last_loaded.clear()
+    mod = sys.modules.get('maltoolbox.attackgraph.attackgraph')
+    for nm in ('load_dict_from_yaml_file', 'load_dict_from_json_file'):
+        f = getattr(mod, nm, None)
+        if f is None or getattr(f, '_verif_tap', False): continue
+        def wrapped(filename, _f=f):
+            d = _f(filename); _last_loaded['doc'] = d
+            return d
+        wrapped._verif_tap = True
+        setattr(mod, nm, wrapped)
+
+class GenDocs:
+    """collects, for ONE history, the disagreements between the dictionaries of the real `AttackGraph._to_dict()` and the
+    documents the generated `graph__to_dict` returned for the replayed heap (driver op `gen_ag_todict`), and queues the
+    documents the REAL file layer loaded for the generated `graph__from_dict` (driver op `gen_ag_fromdict`)"""
+    def __init__(self, gen_docs, res, queue, hi, count=True):
+        self.gen = {d['pos']: d for d in gen_docs}; self.res = res; self.queue = queue; self.hi = hi; self.count = count
+        self.bad = []           # [(position, description)]
+        self.steps = 0          # number of steps the real code has run
+        self.ttc_touched = False
+    def compare(self, pos, im):
+        from .. import genexec
+        g = self.gen.get(pos)
+        if g is None: return
+        real = im.g._to_dict()
+        d = genexec.ag_doc_compare(real, g['doc'], self.res if self.count else None, self.ttc_touched)
+        if self.count: self.res.bump('generated_code_documents_compared')
+        if d: self.bad.append((pos, 'document of _to_dict: ' + d, real, g['doc']))
+    def __call__(self, phase, i, op, im, st):
+        import os
+        from ..common import scratch
+        if phase == 'before':
+            if op['k'] == 'touch' and op['field'] == 'ttc': self.ttc_touched = True
+            if op['k'] == 'save_load':
+                self.compare(i, im)
+                if self.queue is not None: _tap_loaders()
+        elif phase == 'end':
+            self.compare(i, im)
+        elif op['k'] == 'save_load' and st['err'] is None and self.queue is not None:
+            # the file the real `save_to_file` wrote, as the real loader reads it: input of the generated `_from_dict`
+            from .. import genexec
+            raw = _last_loaded.pop('doc', None)
+            if raw is None:             # (the loader was not reached through the tapped names: read the file again)
+                if self.count: self.res.bump('generated_code_loads_file_read_again')
+                from maltoolbox.file_utils import load_dict_from_json_file, load_dict_from_yaml_file
+                path = os.path.join(scratch(), 'ag.' + ('json' if op['fmt'] == 'json' else op.get('ext', 'yml')))
+                raw = (load_dict_from_json_file if op['fmt'] == 'json' else load_dict_from_yaml_file)(path)
+            # (encoded / copied at once: the loaded nodes keep the very `ttc` / `extras` / `tags` objects of the document, and
+            # `to_dict` hands them out again - a later `touch` of the history would change the recorded documents)
+            self.queue.append({'hi': self.hi, 'step': i, 'obs': st['obs'], 'ttc_touched': self.ttc_touched, 'resaved': copy.deepcopy(im.g._to_dict()),
+                               'payload': {'op': 'gen_ag_fromdict', 'doc': genexec.ag_doc_encode(raw), 'withModel': op['withModel']}})
+        if phase == 'after': self.steps = i + 1
+
+def check_fromdict(queue, ok_hist, ops_of, res, count=True):
+    """the generated `_from_dict` on the documents the real file layer returned -> [(queue entry, description)]"""
+    from .. import genexec
+    out = run_driver([dict(q['payload'], case=k) for k, q in enumerate(queue)])
+    bad = []
+    for q, o in zip(queue, out):
+        if not ok_hist(q['hi']): continue
+        if 'error' in o:
+            bad.append((q, 'driver-error', o['error'])); continue
+        g = o['model']
+        if count: res.bump('generated_code_loads_compared')
+        if g['err'] is not None:
+            bad.append((q, 'from_dict', f'the generated _from_dict raises {g["err"]} on a document the real _from_dict loads')); continue
+        a, b = genexec.ag_exact_obs(q['obs']), genexec.ag_exact_obs(g['obs'])
+        if a != b:
+            ks = [k for k in a if a[k] != b[k]]
+            what = 'in the order of ' if canon_obs(a) == canon_obs(b) else 'in '
+            bad.append((q, 'from_dict', f'the graph loaded by the generated _from_dict differs {what}{", ".join(ks)}', {'impl': {k: a[k] for k in ks}, 'generated': {k: b[k] for k in ks}})); continue
+        d = genexec.ag_doc_compare(q['resaved'], g['resaved'], res if count else None, q['ttc_touched'])
+        if d: bad.append((q, 'from_dict', 'saving the graph loaded by the generated _from_dict: ' + d))
+    return bad
 
 def run(seed, tier, lean) -> Result:
     rnd = random.Random(seed)
@@ -74,7 +164,12 @@ def run(seed, tier, lean) -> Result:
         if not any(o['k'] == 'save_load' for o in ops):
             ops.insert(len(ops) - 1, {'k': 'save_load', 'fmt': rnd.choice(['json', 'yaml']), 'ext': 'yml', 'withModel': rnd.random() < 0.5})
         hists.append(ops)
-    model = run_driver([{'op': 'ag_hist', 'case': i, 'ops': h} for i, h in enumerate(hists)]) if lean['build_ok'] else None
+    from .. import genexec
+    model = gen = None
+    if lean['build_ok']:
+        model, gen = genexec.run_both([{'op': 'ag_hist', 'case': i, 'ops': h} for i, h in enumerate(hists)], 'gen_ag_todict',
+                                      rewrite=lambda q: dict(q, pos=doc_positions(q['ops'])))
+    queue, clean = [], set()
     for hi, ops in enumerate(hists):
         res.evaluations += 1
         mo = None
@@ -83,7 +178,17 @@ def run(seed, tier, lean) -> Result:
                 res.violations.append(Violation(what='driver rejected a history: ' + model[hi]['error'], fingerprint='C10:driver-error',
                                                 replay={'ops': ops}, no_failing_input=True)); continue
             mo = model[hi]['model']
-        bad = run_one(ops, mo, res)
+        tap = None
+        if gen is not None and gen[hi] is not None:
+            if 'error' in gen[hi]: res.violations.append(genexec.driver_error('C10', gen[hi]['error'], {'ops': ops}))
+            else: tap = GenDocs(gen[hi]['model'], res, queue, hi)
+        bad = run_one(ops, mo, res, tap)
+        if tap is not None and not bad:
+            # third column: hand model = implementation and the oracle passes on this history
+            clean.add(hi)
+            for pos, what, real, gdoc in tap.bad[:1]:
+                res.violations.append(genexec.divergence('C10', '_to_dict', f'on the document of the graph before step {pos} ({what})',
+                    {'ops': ops[:pos], 'impl_doc': genexec.ag_doc_encode(real), 'generated_doc': gdoc}))
         if any(o['k'] == 'add_attacker' and len(o['reached']) >= 2 for o in ops) and any(o['k'] == 'add_node' and not o['viable'] and o.get('tags') for o in ops):
             res.nontrivial.add(canon_hash(ops))
         if bad:
@@ -95,7 +200,74 @@ def run(seed, tier, lean) -> Result:
                 res.violations.append(Violation(what=f'implementation and Lean model disagree after step {at} ({ops[at]["k"]})',
                                                 fingerprint='C10:model-divergence:' + ops[at]['k'], replay={'ops': ops[:at + 1], **info}, no_failing_input=True))
         if len(res.samples) < 2: res.samples.append({'ops': ops[:10]})
+    if queue:
+        seen = set()
+        for q, kind, what, *info in check_fromdict(queue, lambda hi: hi in clean, hists, res):
+            if q['hi'] in seen: continue        # one report per history
+            seen.add(q['hi'])
+            rp = {'ops': hists[q['hi']][:q['step'] + 1], 'document': q['payload']['doc'], 'withModel': q['payload']['withModel'], **(info[0] if info else {})}
+            res.violations.append(genexec.driver_error('C10', what, rp) if kind == 'driver-error' else
+                                  genexec.divergence('C10', '_from_dict', f'on the file written at step {q["step"]} ({what})', rp))
     return res
+
+def genexec_measure(seed: int, n: int) -> dict:
+    """seeded experiment (tools/genexec_seeded.py), DOCUMENT family only (the history family of C10 is measured by the tool
+    itself): n histories of the quick check on the (mutated) implementation, the hand model (`ag_hist`, step by step up to
+    the first disagreement) and the (regenerated) code: documents of `_to_dict` before every save and at the end, and
+    `_from_dict` on the files the implementation wrote.  A case = one history."""
+    from .. import genexec
+    rnd = random.Random(seed)
+    st = {'cases': 0, 'impl_ne_hand': 0, 'gen_follows_impl': 0, 'gen_ne_impl': 0, 'impl_crash': 0, 'examples': []}
+    fam = {'documents_compared': 0, 'loads_compared': 0, 'documents_differ': 0, 'loads_differ': 0}
+    def note(kind, info):
+        if len([e for e in st['examples'] if e[0] == kind]) < 2: st['examples'].append([kind, info])
+    hists = []
+    for k in range(n):
+        g = Gen(random.Random(rnd.getrandbits(48)), WEIGHTS, nmax=rnd.choice([4, 6, 10]), rich=True)
+        ops = g.gen(rnd.randint(8, 40))
+        if not any(o['k'] == 'save_load' for o in ops):
+            ops.insert(len(ops) - 1, {'k': 'save_load', 'fmt': rnd.choice(['json', 'yaml']), 'ext': 'yml', 'withModel': rnd.random() < 0.5})
+        hists.append(ops)
+    hand, gen = genexec.run_both([{'op': 'ag_hist', 'case': i, 'ops': h} for i, h in enumerate(hists)], 'gen_ag_todict',
+                                 rewrite=lambda q: dict(q, pos=doc_positions(q['ops'])))
+    queue, per = [], {}
+    res = Result()
+    for hi, ops in enumerate(hists):
+        st['cases'] += 1
+        if 'error' in hand[hi] or 'error' in gen[hi]:
+            note('driver-error', [hand[hi].get('error'), gen[hi].get('error')]); continue
+        tap = GenDocs(gen[hi]['model'], res, queue, hi)
+        im = Impl(); first = None
+        for i, op in enumerate(ops):
+            tap('before', i, op, im, None)
+            try: s_ = im.step(op)
+            except Exception as e:
+                st['impl_crash'] += 1; note('impl-crash', f'{type(e).__name__} at step {i} ({op["k"]}): {str(e)[:80]}'); first = -1; break
+            mo = hand[hi]['model'][i]
+            tap('after', i, op, im, s_)
+            if [s_['err'], canon_out(op, s_['out']), canon_obs(s_['obs'])] != [mo['err'], canon_out(op, mo['out']), canon_obs(mo['obs'])]:
+                first = i; break
+        else:
+            tap('end', len(ops), None, im, None)
+        per[hi] = {'first': first, 'tap': tap, 'loads_bad': []}
+    for q, kind, what, *info in (check_fromdict(queue, lambda hi: hi in per, hists, res) if queue else []):
+        per[q['hi']]['loads_bad'].append([q['step'], kind, what] + list(info))
+    for hi, p in per.items():
+        differ = bool(p['tap'].bad or p['loads_bad'])
+        fam['documents_differ'] += len(p['tap'].bad); fam['loads_differ'] += len(p['loads_bad'])
+        if p['first'] is not None and p['first'] >= 0:
+            st['impl_ne_hand'] += 1
+            if not differ:
+                st['gen_follows_impl'] += 1
+                note('gen=impl!=hand', {'history': hi, 'step': p['first'], 'op': hists[hi][p['first']]})
+        if differ:
+            st['gen_ne_impl'] += 1
+            note('gen!=impl', {'ops': hists[hi][:(p['tap'].bad[0][0] if p['tap'].bad else p['loads_bad'][0][0] + 1)],
+                               'what': (p['tap'].bad[0][1] if p['tap'].bad else p['loads_bad'][0][2])})
+    fam['documents_compared'] = res.distribution.get('generated_code_documents_compared', 0)
+    fam['loads_compared'] = res.distribution.get('generated_code_loads_compared', 0)
+    st['document_family'] = dict(fam, **{k: st[k] for k in ('cases', 'impl_ne_hand', 'gen_follows_impl', 'gen_ne_impl', 'impl_crash')})
+    return st
 
 def replay(path):
     r = json.load(open(path))
